@@ -432,3 +432,25 @@ func (b *B) answerClose(label int, f func()) {
 	b.mu.Unlock()
 	f()
 }
+
+// DownAliases returns the stream id alias of every downstream the broker knows, by label.
+func (b *B) DownAliases() map[int]uint32 {
+	b.mu.Lock()
+	defer b.mu.Unlock()
+	m := map[int]uint32{}
+	for _, si := range b.streams {
+		if si.down {
+			m[si.label] = si.alias
+		}
+	}
+	return m
+}
+
+// SendToClient writes an arbitrary broker message on the newest established session.
+func (b *B) SendToClient(m message.Message) error {
+	s := b.CurrentEstablished()
+	if s == nil {
+		return fmt.Errorf("no session")
+	}
+	return s.Send(m)
+}
